@@ -19,13 +19,15 @@ func init() {
 		Explanation: "Decided: (R1) both subscription tables (and the inner maps reached through them) are read and written only with the stream's mutex held, Publish iterates a private snapshot; " +
 			"(R2) every path that inserts into / deletes from one index performs the matching update of the other index in the same call; (R3) Publish looks up the event's own reflect.Type, and tells every element of the snapshot exactly once, as a user message carrying the published value; " +
 			"(R5) the termination path unsubscribes the actor from everything, the restart path does not; (R6) in the cleanup step UnsubscribeAll dominates the release of the actor's path and every termination notice, so nobody who has observed the termination can still publish to the dead actor, and a successor under the same name cannot lose its subscriptions to the old incarnation's late UnsubscribeAll. " +
-			"(Idempotence of a repeated Subscribe follows from map assignment semantics given R2 and needs no rule: a rule demanding the existence check would fire on a behaviour-preserving edit.) (R7) inside the module UnsubscribeAll is called only by a kill-chain step with the dying actor's own context or with the context a behaviour was handed: the tables are keyed by path, so any other caller drops the subscriptions of whoever lives at that path. (R8) a reference memoises only the mailbox of the context found registered at its path, never a miss: the subscriber table holds the actor's own reference object, and a subscriber that subscribed in OnPrelaunch is resolved before it is registered whenever an event of its type is published in that window — a pinned dead-letter mailbox would turn every later event for it into a dead letter. (R9 = C09.R3) the supervisor's resume broadcast follows a restart directive only for the graceful form: a plain restart keeps the mailbox paused until the restart step resumes it in state running, so events published while a subscriber with children waits for them are handled by the restarted instance instead of being popped in state killing and dead-lettered. NOT decided: delivery order across publishers, 'not delivered after Unsubscribe returned' when a publish races the unsubscribe.",
+			"(Idempotence of a repeated Subscribe follows from map assignment semantics given R2 and needs no rule: a rule demanding the existence check would fire on a behaviour-preserving edit.) (R7) inside the module UnsubscribeAll is called only by a kill-chain step with the dying actor's own context or with the context a behaviour was handed: the tables are keyed by path, so any other caller drops the subscriptions of whoever lives at that path. (R8) a reference memoises only the mailbox of the context found registered at its path, never a miss: the subscriber table holds the actor's own reference object, and a subscriber that subscribed in OnPrelaunch is resolved before it is registered whenever an event of its type is published in that window — a pinned dead-letter mailbox would turn every later event for it into a dead letter. (R9 = C09.R3) the supervisor's resume broadcast follows a restart directive only for the graceful form: a plain restart keeps the mailbox paused until the restart step resumes it in state running, so events published while a subscriber with children waits for them are handled by the restarted instance instead of being popped in state killing and dead-lettered. (R10 = C01.R2) the subscriber's mailbox re-checks for work after giving up its processing right, so an event enqueued at that instant is not left unseen; (R11 = C08.R7) everything a supervisor suspends is recorded as a target, the reporter included. NOT decided: delivery order across publishers, 'not delivered after Unsubscribe returned' when a publish races the unsubscribe.",
 		Assumptions: []string{"sync.RWMutex semantics", "maps.Clone returns a fresh map"},
 		Rules: []Rule{
 			{ID: "C19.R1", Min: 30, Desc: "tables only under mu; snapshot iteration", Fn: c19Tables},
 			{ID: "C19.R7", Min: 1, Desc: "the library unsubscribes an actor from everything only for that actor itself", Fn: c19UnsubscribeOwner},
 			{ID: "C19.R8", Min: 1, Desc: "a reference memoises only the mailbox of the registered context, never a miss (strict form of C03.R7)", Fn: c19CacheOnlyFound},
 			{ID: "C19.R9", Min: 6, Desc: "a restart keeps subscriptions: the supervisor resumes a restarting subscriber's mailbox only when the restart cannot take over by itself (C09.R3)", Fn: c09Broadcast},
+			{ID: "C19.R10", Min: 2, Desc: "an event enqueued while the subscriber's consumer goes idle is not stranded: the exit re-check of the mailbox (C01.R2)", Fn: c01Release},
+			{ID: "C19.R11", Min: 2, Desc: "every supervision target is paused and recorded, the reporter included: a restart decision never reaches an open mailbox (C08.R7)", Fn: c08RecordedTargets},
 			{ID: "C19.R2", Min: 8, Desc: "indexes updated together; whole entries deleted only when empty", Fn: c19Indexes},
 			{ID: "C19.R3", Min: 3, Desc: "fan-out: own type key, each snapshot element told exactly once with the event", Fn: c19Fanout},
 			{ID: "C19.R5", Min: 2, Desc: "unsubscribe-all on termination, not on restart", Fn: c19Lifecycle},
